@@ -48,6 +48,26 @@ def _install_capture():
 
     wrapf.Wrapf.wrap_function_impl = wrap_function_impl
     wrapf.ftn_implied = ftn_implied
+    # the VALUE rule: inputs as written (before) and attrs["value"] as left (after) by VerifyAttrs.check_arg_attrs
+    from shroud import generate
+    orig_caa = generate.VerifyAttrs.check_arg_attrs
+
+    def check_arg_attrs(self, node, arg, options=None):
+        try:
+            pre = (arg.attrs["assumedtype"] is not None, arg.attrs["value"], arg.attrs["intent"])
+        except Exception:
+            pre = None
+        try:
+            res = orig_caa(self, node, arg, options)
+        except RuntimeError as e:
+            if pre is not None and "value=True" in str(e):
+                _holder.setdefault("value", []).append((node, arg, pre, "raise"))
+            raise
+        if pre is not None:
+            _holder.setdefault("value", []).append((node, arg, pre, arg.attrs["value"]))
+        return res
+
+    generate.VerifyAttrs.check_arg_attrs = check_arg_attrs
     wrapf.Wrapf._c01_patched = True
 
 
@@ -555,6 +575,25 @@ class Tie:
                 self.expect.append(("cderef", "%s:%s:%s" % (tag, n.declgen or n.decl, a.name),
                                     "%d%d%d" % (int(fc.c_deref == "*"), int(fc.c_member == "->"), int(fc.c_addr == "&")),
                                     (a.typemap.sgroup, a.get_indirect_stmt())))
+        # ---- the VALUE attribute of every declared parameter (fortran_generic lists included) as check_arg_attrs left it
+        for vnode, a, (assumed, given, intent_given), after in _holder.get("value", []):
+            try:
+                tmname = a.typemap.name
+                ind, nptr, arr = bool(a.is_indirect()), len(a.declarator.pointer), bool(a.array)
+            except Exception:
+                self.skipped += 1
+                continue
+            if given not in (None, True, False):
+                self.skipped += 1
+                continue
+            icode = {None: 0, "in": 40, "out": 41, "inout": 42}.get(intent_given.lower() if isinstance(intent_given, str) else intent_given, 0)
+            self.lines.append("value %d,%d,%d,%d,%d,%d,%d,%d" % (int(assumed), {None: 0, False: 1, True: 2}[given], int(ind),
+                                                              int(tmname == "void"), nptr, int(arr), int(bool(a.const)), icode))
+            self.expect.append(("value", "%s:%s:%s" % (tag, getattr(vnode, "declgen", None) or getattr(vnode, "decl", None) or "?", a.name),
+                                {None: "-", True: "1", False: "0", "raise": "raise"}.get(after, repr(after)),
+                                "%s%s%s%s" % ("const " if a.const else "", tmname if tmname == "void" else "T", "*" * nptr if ind else ("[]" if arr else ""),
+                                              " +intent(%s)" % intent_given if intent_given else "")))
+        _holder["value"] = []
         # ---- preprocessor guards of the written generic interfaces: block guard and per-member guard vs the model
         # (members and their node_cpp_if are taken from the real nodes; membership itself is tied below)
         byimpl = {}
@@ -664,6 +703,15 @@ class Tie:
                 self.cderef_dist[k] = self.cderef_dist.get(k, 0) + 1
                 if got != exp:
                     bad.append({"kind": kind, "arg": tag, "model_deref_member_addr": got, "real": exp})
+            elif kind == "value":
+                self.n_value = getattr(self, "n_value", 0) + 1
+                self.value_dist = getattr(self, "value_dist", {})
+                k = "%s -> %s" % (extra, {"1": "VALUE", "-": "by reference", "0": "value(false)"}.get(exp, exp))
+                self.value_dist[k] = self.value_dist.get(k, 0) + 1
+                if got != exp:
+                    bad.append({"kind": kind, "arg": tag, "spelling": extra, "model_value_attr": got, "real_value_attr": exp})
+                if "void" in extra:
+                    ctx.nontrivial(("value", extra))
             elif kind == "ifguards":
                 self.n_ifg = getattr(self, "n_ifg", 0) + 1
                 b, ms = got.split(" ")
@@ -711,6 +759,8 @@ class Tie:
                      "interface_pure_checks": getattr(self, "n_pure", 0), "interface_pure_distribution": getattr(self, "pure_dist", {}),
                      "c_deref_checks": getattr(self, "n_cderef", 0),
                      "c_deref_struct_arguments": {k: v for k, v in getattr(self, "cderef_dist", {}).items() if k.startswith("struct")},
+                     "value_attr_checks": getattr(self, "n_value", 0),
+                     "value_attr_void_spellings": {k: v for k, v in getattr(self, "value_dist", {}).items() if "void" in k},
                      "generic_interface_guard_checks": getattr(self, "n_ifg", 0), "of_them_with_a_cpp_if": getattr(self, "n_ifg_guarded", 0),
                      "assumed_rank_ranges": getattr(self, "n_ranks", 0),
                      "implied_expressions": getattr(self, "n_implied", 0), "implied_forms": getattr(self, "implied_forms", {}),
